@@ -16,7 +16,9 @@ CONSTANTS Clients, Programs,      \* each client runs one program: a sequence of
           BUG_INCREMENTAL,        \* refresh empties the index and fills it in a second step, and GetDevice forgets the mutex
           MaxFlips, MaxEvents, EMIT
 
-Ops == {"ListDevices", "GetDevice", "InjectDevices", "ListVendors", "GetVendorSpecs", "Refresh", "Configure",
+\* "NewCache": the constructor - it starts the watcher goroutine before its initial scan, so it holds the (new)
+\* cache's mutex throughout like Configure; modelled on the shared cache (one mutex, one watcher)
+Ops == {"ListDevices", "GetDevice", "InjectDevices", "ListVendors", "GetVendorSpecs", "Refresh", "Configure", "NewCache",
         "GetErrors", "GetSpecErrors", "GetSpecDirectories", "GetSpecDirErrors", "WriteSpec", "RemoveSpec"}
 
 \* unlocked prelude: [r, w]
@@ -31,14 +33,14 @@ CS(op) ==
   CASE op \in {"ListDevices", "GetDevice", "InjectDevices", "ListVendors", "GetVendorSpecs"}
          -> [r |-> {"watch", "errp", "errm", "dirs", "index"}, w |-> {"watch", "errm", "index"}]   \* refreshIfRequired + read
     [] op = "Refresh"   -> [r |-> {"watch", "errp", "errm", "dirs", "index"}, w |-> {"watch", "errm", "index"}]
-    [] op = "Configure" -> [r |-> {"watch", "dirs"}, w |-> {"dirs", "errp", "errm", "watch", "index"}]
+    [] op \in {"Configure", "NewCache"} -> [r |-> {"watch", "dirs"}, w |-> {"dirs", "errp", "errm", "watch", "index"}]
     [] op = "GetErrors" -> [r |-> {"index", "errp", "errm"}, w |-> {}]
     [] op = "GetSpecErrors" -> [r |-> {"index"}, w |-> {}]
     [] op = "GetSpecDirectories" -> [r |-> {"dirs"}, w |-> {}]
     [] op = "GetSpecDirErrors" -> [r |-> {"errp", "errm"}, w |-> {}]
     [] op \in {"WriteSpec", "RemoveSpec"} -> [r |-> {"dirs"}, w |-> {}]
 WatcherCS == [r |-> {"watch", "errm", "dirs"}, w |-> {"watch", "errm", "index"}]
-RefreshesIndex(op) == op \in {"Refresh", "Configure"}     \* (queries refresh only when a directory was added)
+RefreshesIndex(op) == op \in {"Refresh", "Configure", "NewCache"}     \* (queries refresh only when a directory was added)
 Reads(op) == op \in {"ListDevices", "GetDevice", "InjectDevices", "ListVendors", "GetVendorSpecs"}
 
 VARIABLES pc,        \* client -> "idle" | "prelude" | "wait" | "cs" | "cs2" | "done"
